@@ -85,6 +85,8 @@ def _outcome_b(entry, args, rec):
         return ("outside", "known-region: " + str(k))
     except e5.OutOfFuel:
         return ("outside", "fuel")
+    except e5.OutsideIndex:
+        return ("outside", "index")
     except e5.Unsupported as u:
         return ("unsupported", str(u))
 
